@@ -505,6 +505,22 @@ def _sci(run, repo, world, folder):
     pfn = expand_method(world, world.cls(P), pfn, aliases="params")
     spans = {astq.canon(pfn, c_.args[0]) for c_ in astq.calls_to(
         pfn, "_process_dali_frame") if c_.args}
+    for c_ in astq.calls_to(pfn, "_process_dali_frame"):
+        for a_ in c_.args[:1]:
+            r_ = astq.resolve(pfn, a_)
+            for x_ in ast.walk(r_):
+                if isinstance(x_, ast.Subscript) and unparse(
+                        x_.value) == "self._buffer":
+                    bs_ = [x_.slice.lower, x_.slice.upper] if isinstance(
+                        x_.slice, ast.Slice) else [x_.slice]
+                    if any(b_ is not None and not (isinstance(
+                            b_, ast.Constant) and type(b_.value) is int)
+                            for b_ in bs_):
+                        raise AnalysisError(
+                            "%s._process_byte takes the received frame's "
+                            "bytes with a span looked up at run time (`%s`); "
+                            "the rule reads spans written as constants at "
+                            "the hand-over" % (P, unparse(r_, 80)))
     code = any(isinstance(n, ast.BinOp) and isinstance(n.op, ast.BitAnd)
                and astq.canon(pfn, n.left) == "self._buffer[0]" and
                unparse(n.right).endswith("STATUS_CODE_MASK")
